@@ -137,6 +137,8 @@ package store
 //@   modifies heap, oldWriterRetired
 //@   set oldWriterRetired = true at call CloseAofWriter
 //@   assert at call NewAofWriter: previous_writer_is_retired_before_the_new_one_opens_its_file: oldWriterRetired
+//@   replay store_verifyCrcFirstSegment
+//@   assert at call AppendAof: a_segment_that_is_being_written_is_indexed_as_such: a != nil && a.size == 0 - 1
 
 //@ func Storer.GetRdbWriter
 //@   arith int
